@@ -15,7 +15,12 @@ LEAN_MODULES = ['Proofs.C08']
 REQUIRED = ['C08.pool_map_schedule_indep', 'C08.ensemble_mean', 'C08.flip_member_mean',
             'C08.ensemble_zero_noise_eq_sift', 'C08.ensemble_member_noise', 'C08.ensemble_noise_distinct',
             'C08.ensemble_schedule_indep', 'C08.forkdraw_member_noise', 'C08.ensemble_noise_shared_forkdraw_witness',
-            'C08.ceemd_noise_by_column', 'C08.ceemd_stage_mean']
+            'C08.ceemd_noise_by_column', 'C08.ceemd_stage_mean',
+            # cross-model consistency with the Sift model (C01/C03/C04)
+            'C08.ensemble_mean_agrees_with_sift_model', 'C08.ensembleSift_agrees_with_sift_model',
+            'C08.ensemble_cols_le_cap_classic_sift', 'C08.ensemble_zero_noise_eq_classic_sift',
+            'C08.ensemble_zero_noise_eq_getNextImf_sift', 'C08.ensemble_zero_noise_complete',
+            'C08.ceemd_agrees_with_sift_model', 'C08.ceemd_composed_cols_le_cap']
 TRUSTED = [
     'oracle: the classic sift S = the real public emd.sift.sift, tabulated on the member inputs of the same run (lookup by argument within 1e-9)',
     'oracle: the random generator is an abstract stream; the arrays it hands out are taken from the traced numpy.random.randn / random_sample calls',
